@@ -81,7 +81,7 @@ def gen_program(rng: Any) -> dict[str, Any]:
     return {"backend": rng.choice(["asyncio", "trio"]), "sched_seed": rng.randrange(1 << 30), "shuffle": rng.random() < 0.5,
             "n_instances": n_inst, "n_signals": n_sig, "tasks": tasks,
             # owner instances that all compare (and hash) equal, like value objects / frozen dataclasses
-            "equal_owners": rng.random() < 0.3}
+            "equal_owners": rng.random() < 0.3, "copied_owners": rng.random() < 0.25}
 
 
 # --------------------------------------------------------------------------- interpretation
@@ -280,6 +280,14 @@ class Run:
             getattr(Src, name).__set_name__(Src, name)
         self.Src = Src
         self.insts = [Src() for _ in range(prog["n_instances"])]
+        if prog.get("copied_owners") and prog["n_instances"] >= 2:
+            # the second owner is a shallow copy of the first, made after all its signals were used once (whatever a binding
+            # leaves on the instance travels with the copy); it is an owner of its own all the same
+            import copy
+
+            for name in [f"s{j}" for j in range(prog["n_signals"])]:
+                getattr(self.insts[0], name)
+            self.insts[1] = copy.copy(self.insts[0])
         self.gens = [0] * prog["n_instances"]
         cancel_scopes: dict[int, anyio.CancelScope] = {}
         try:
@@ -500,6 +508,8 @@ def check(run: Run) -> tuple[list[dict[str, Any]], dict[str, int]]:
                                     f"(expected the same object stamped with that channel's instance and topic {e['expect_topic']!r})")
     if prog.get("equal_owners") and prog["n_instances"] >= 2:
         inc("histories_with_equal_owners")
+    if prog.get("copied_owners") and prog["n_instances"] >= 2:
+        inc("histories_with_a_copied_owner")
     if active_subs >= 2:
         inc("histories_with_2plus_subscribers")
     if any(t["kind"] == "subscriber" and t["style"]["kind"] == "abandon" for t in prog["tasks"]):
